@@ -13,6 +13,7 @@ package v1beta1
 //@   requires p != nil
 //@   panics
 //@   modifies nothing
+//@   expat
 //@   ensures result ==> (exists k int :: 0 <= k && k < len(p.Allocations) && p.Allocations[k].AllocationType.Type == "Fixed")
 //@   ensures !result ==> (forall k int :: 0 <= k && k < len(p.Allocations) ==> p.Allocations[k].AllocationType.Type != "Fixed")
 //@   loop 1 invariant -1 <= rangeindex && rangeindex < len(p.Allocations)
